@@ -16,8 +16,14 @@ THEOREMS = ["LNN.C09_foj_complete",
             "LNN.C09_upward_present",
             "LNN.C09_upward_present_homogeneous",
             "LNN.C09_upward_keeps_rows",
-            "LNN.C09_operands_kept"]
-MODULES = ["LnnVerif.Props.C09"]
+            "LNN.C09_operands_kept",
+            # the value clause (Lemmas/FolValue.lean)
+            "LNN.C09_upward_value",
+            "LNN.C09_upward_value_homogeneous",
+            "LNN.C09_upward_value_open",
+            "LNN.C09_downward_value",
+            "LNN.C09_downward_frame"]
+MODULES = ["LnnVerif.Props.C09", "LnnVerif.Props.C09Value"]
 VARS = ["x", "y", "z"]
 
 
